@@ -292,6 +292,11 @@ class Compiler:
                 if index is None:
                     c_expr = self._compile(column)
 
+                    # Check for mixed aggregates and non-aggregates.
+                    columns, aggregates = get_columns_and_aggregates(c_expr)
+                    if columns and aggregates:
+                        raise CompilationError('mixed aggregates and non-aggregates are not allowed')
+
                     # Attempt to reconcile the expression with one of the existing
                     # target expressions.
                     try:
@@ -444,6 +449,9 @@ class Compiler:
                 c_expr = self._compile(group_by.having)
                 if not is_aggregate(c_expr):
                     raise CompilationError('the HAVING clause must be an aggregate expression')
+                columns, aggregates = get_columns_and_aggregates(c_expr)
+                if columns and aggregates:
+                    raise CompilationError('mixed aggregates and non-aggregates are not allowed')
                 having_index = len(new_targets)
                 new_targets.append(EvalTarget(c_expr, None, True))
                 c_target_expressions.append(c_expr)
